@@ -198,14 +198,33 @@ def run(ctx):
     F = ctx.facts("dbg")
     is_append = lambda c: c.is_trait_method("EntrySink", "append") or c.is_("metrique_writer_core::sink::BoxEntrySink::append_any")
     is_tl = lambda c: c.is_in("std::thread", "LocalKey::with", "LocalKey::try_with")
-    is_rt = lambda c: c.is_("tokio::runtime::Handle::try_current") or c.name == "runtime_sinks"
-    is_test_lookup = lambda c: c.name == "get_test_sink"
+    # the macro's private helpers by signature (their names are an implementation detail): the test-sink lookup is the parameterless local
+    # fn returning Option<BoxEntrySink>; the runtime registry accessor returns the &'static map keyed by runtime id
+    BOXSINK = "metrique_writer_core::sink::BoxEntrySink"
+    lookup_defs = {b_.def_ for b_ in F.all_bodies(SM) if b_.kind == "Fn" and not (b_.d.get("inputs") or []) and b_.d.get("output") == "core::option::Option<%s>" % BOXSINK}
+    rt_defs = {b_.def_ for b_ in F.all_bodies(SM) if b_.kind == "Fn" and not (b_.d.get("inputs") or []) and "HashMap<tokio::runtime::id::Id" in (b_.d.get("output") or "")}
+    is_rt = lambda c: c.is_("tokio::runtime::Handle::try_current") or c.def_ in rt_defs
+    is_test_lookup = lambda c: c.def_ in lookup_defs
     is_read = lambda c: c.is_("std::sync::poison::rwlock::RwLock::<T>::read", "std::sync::rwlock::RwLock::<T>::read")
 
-    gts = [b for b in F.all_bodies(SM) if b.name == "get_test_sink" and b.kind == "Fn"]
+    gts = [b for b in F.all_bodies(SM) if b.def_ in lookup_defs]
     ctx.floor("R17.1", "get_test_sink instances", len(gts), 1)
     for b in gts:
         precedence(ctx, "R17.1", b, is_tl, is_rt, "thread-local>runtime")
+    # R17.4 (library side): the panicking `append` of every global sink is the locked `try_append` plus a panic - never a clone of the
+    # sink obtained with try_sink()/sink() and appended to outside the lock
+    blanket = [b for b in F.all_bodies(WS_LIBS) if b.name == "append" and b.impl and (b.impl.get("trait") or "").endswith("global::GlobalEntrySink")]
+    ctx.floor("R17.4", "GlobalEntrySink::append implementations", len(blanket), 1)
+    for b in blanket:
+        pr_ = Prov(b)
+        ta = [c for c in b.calls() if c.name == "try_append" and any(any(x[0] == "arg" and x[1] == 1 for x in pr_.operand(a)) for a in c.args)]
+        direct = [c for c in b.calls() if is_append(c)]
+        ok_, why_ = exactly_once(b, [c.bb for c in ta])
+        ctx.check(ok_ and not direct, "R17.4", fnkey(b) + "#append-goes-through-try_append", loc(b),
+                  "the global sink's `append` does not hand the entry to `try_append` (%s%s): appending to a sink obtained from try_sink()/sink() happens "
+                  "outside the global's read lock, so a detach can complete while the append is in flight and the entry lands in a sink that was "
+                  "already flushed and removed" % (why_ if not ok_ else "", "; direct append to a sink clone" if direct else ""),
+                  "entry -> try_append exactly once, no direct append")
     n = 0
     for b in F.all_bodies(WS_LIBS):
         if b.impl and (b.impl.get("trait") or "").endswith("AttachGlobalEntrySink") and b.name in ("try_sink", "try_append"):
